@@ -117,7 +117,11 @@ def _sf2(args):
         return sigma_filter(*args)
     except Exception as e:
         import traceback
-        logging.warn(e)
+        logging.warning(e)
+        # release the other workers, which would otherwise wait forever at
+        # the barrier for this one (they get a BrokenBarrierError)
+        if barrier is not None:
+            barrier.abort()
         raise Exception("".join(traceback.format_exception(*sys.exc_info())))
 
 
